@@ -186,6 +186,11 @@ pub fn mutants<B: Backend>(purpose: Purp, tok: &str, msg_len: usize, aad: &[u8],
         for e in extra {
             out.push(Mutant { class: "extra-segment", token: format!("{tok}{e}"), aad: aad.to_vec() });
         }
+        // white space and invisible characters around the token (a lenient entry point may trim them)
+        for ws in [" ", "\n", "\t", "\r\n", "\u{a0}", "\u{2003}", "\u{feff}", "\u{200b}", "\0"] {
+            out.push(Mutant { class: "whitespace-extension", token: format!("{tok}{ws}"), aad: aad.to_vec() });
+            out.push(Mutant { class: "whitespace-extension", token: format!("{ws}{tok}"), aad: aad.to_vec() });
+        }
         out.push(Mutant { class: "token-twice", token: format!("{tok}{tok}"), aad: aad.to_vec() });
         out.push(Mutant { class: "token-twice", token: format!("{tok}.{tok}"), aad: aad.to_vec() });
     }
@@ -209,6 +214,15 @@ fn expect_err<B: Backend>(rep: &mut Report, kp: &KeyPair<B>, class: &str, tok: &
             &format!("C02|{}|{}|panic:{class}", B::NAME, p.name()),
             json!({"backend": B::NAME, "class": class, "token": tok, "aad": hx(aad), "panic": pn}),
         ),
+    }
+    // the other entry point: the same string through the serde Deserialize impl (text-level classes and a
+    // sample of the others; parsing is shared, so byte-level mutants need not all be repeated)
+    if matches!(class, "whitespace-extension" | "extra-segment" | "token-twice") || h % 16 == 0 {
+        match guard(|| kp.open_via_serde(tok, aad)) {
+            Ok(Err(_)) => rep.count("err.via-serde"),
+            Ok(Ok(_)) => rep.violation(&format!("C02|{}|{}|accepted-via-serde:{class}", B::NAME, p.name()), json!({"backend": B::NAME, "purpose": p.name(), "class": class, "token": tok, "aad": hx(aad), "what": "the string deserialises (serde) to a token that unseals"})),
+            Err(pn) => rep.violation(&format!("C02|{}|{}|panic:{class}", B::NAME, p.name()), json!({"token": tok, "panic": pn})),
+        }
     }
     rep.case(&label, h, true);
     rep.sample_class(&label, 1, || json!({"backend": B::NAME, "purpose": p.name(), "class": class, "token": tok, "aad": hx(aad), "result": "Err"}));
@@ -622,7 +636,7 @@ pub fn run(opts: &Opts) {
     pairs!(V1 => V3Lc, V3Lc => V1, V2 => V4Na, V4Na => V2, V3Lc => V4Na, V4Na => V3Lc, V3 => V4Na, V4 => V3Lc, V3Lc => V4, V4Na => V3, V3Lc => V2, V4Na => V1);
     rep.set(
         "rule",
-        json!("fault enumeration: for sealed tokens (payload 0/1/17/64 B x footer x assertion) every single-bit flip of every body/footer/assertion byte, footer/assertion add/remove/replace/swap, boundary shifts of 1..8 bytes between message, footer and assertion, every truncation, extensions, further dot-separated segments after the footer and doubled tokens, header relabels, other keys, for local keys a one-bit-different key per key byte (public: key pairs of one-bit-different secrets), each tried immediately after the right key has opened the token on the same thread; a case is (mutated token, assertion, key) and is non-trivial when it differs from what was sealed; distinct = distinct such triples"),
+        json!("fault enumeration: for sealed tokens (payload 0/1/17/64 B x footer x assertion) every single-bit flip of every body/footer/assertion byte, footer/assertion add/remove/replace/swap, boundary shifts of 1..8 bytes between message, footer and assertion, every truncation, extensions, further dot-separated segments after the footer, doubled tokens and white space / invisible characters around the token (these also through the serde Deserialize entry point), header relabels, other keys, for local keys a one-bit-different key per key byte (public: key pairs of one-bit-different secrets), each tried immediately after the right key has opened the token on the same thread; a case is (mutated token, assertion, key) and is non-trivial when it differs from what was sealed; distinct = distinct such triples"),
     );
     rep.finish(opts);
 }
